@@ -8,18 +8,34 @@
    A swapped fftshift / ifftshift, a changed pad width, slice bound, norm, fft2 <-> ifft2, a dropped .real or a
    changed crop makes one of them unprovable. *)
 From Coq Require Import ZArith List Bool Lia.
-From BL Require Import Base.Ops Model.Solver Model.SolverArray Proofs.Plumbing.
+From BL Require Import Base.Ops Model.Solver Model.SolverArray Proofs.Plumbing Proofs.ArrayRefine.
 From Gen Require Import GenPlumbing.
 Import ListNotations.
 Open Scope Z_scope.
 
-(* syntactically equal descriptions are closed by conversion; index expressions that were rewritten in the
-   source into equal ones (nye - (nly + dly) for nye - nly - dly ...) by lia *)
+(* the interpreted description and the model's pipeline are compared operation by operation (congruence lemmas of
+   Proofs/ArrayRefine.v); index expressions that were rewritten in the source into equal ones
+   (nye - (nly + dly) for nye - nly - dly ...) are identified by lia *)
+Ltac arr_eq :=
+  lazymatch goal with
+  | |- ?x = ?x => reflexivity
+  | |- @eq Z _ _ => lia
+  | |- Some _ = Some _ => apply f_equal; arr_eq
+  | |- a_slice _ _ _ _ _ _ = a_slice _ _ _ _ _ _ => apply a_slice_congr; arr_eq
+  | |- a_pad _ _ _ _ _ _ = a_pad _ _ _ _ _ _ => apply a_pad_congr; arr_eq
+  | |- a_real _ _ = a_real _ _ => apply a_real_congr; arr_eq
+  | |- a_fft2 _ _ _ _ = a_fft2 _ _ _ _ => apply a_fft2_congr; arr_eq
+  | |- a_shift _ _ _ = a_shift _ _ _ => apply a_shift_congr; arr_eq
+  | |- a_mul _ _ _ = a_mul _ _ _ => apply a_mul_congr; arr_eq
+  | |- mkArr _ _ _ _ _ = mkArr _ _ _ _ _ => apply mkArr_congr; arr_eq
+  | |- _ => fail "the plumbing of the source differs from the model here"
+  end.
+
 Ltac plumb_eq :=
-  first [ reflexivity
-        | cbn [run_ops run_op run_ones zeval mk_env ar_rank3 a_pad a_fft2 a_shift a_slice a_real a_mul andb Z.eqb
-               gen_fwd gen_conc gen_flx gen_ones_shape gen_ones_divs shift_ops fst snd fold_left];
-          unfold fwd_pipe, back_pipe, ones_arr; cbv zeta; repeat f_equal; lia ].
+  unfold run_ones, gen_ones_shape, gen_ones_divs;
+  cbn [run_ops run_op run_ones zeval mk_env ar_rank3 a_pad a_fft2 a_shift a_slice a_real a_mul andb Z.eqb
+       gen_fwd gen_conc gen_flx gen_ones_shape gen_ones_divs shift_ops fst snd fold_left];
+  cbv beta iota zeta delta [fwd_pipe back_pipe ones_arr]; arr_eq.
 
 (* dispersion branch: srf_flx -> pad((py,py),(px,px)) -> fft2(norm="forward") -> fftshift -> [dly:dly+nly, dlx:dlx+nlx] -> ifftshift *)
 Lemma bridge_fwd (O : Ops) py px nye nxe nly nlx se rows cols f :
